@@ -9,8 +9,10 @@
 //! under a 20 s watchdog (`blocked`).
 //!
 //! header: `loops <kind> <hosts> <cores> <max> <body> <fold> <cond> <init> <delay> <maxInner>`
-//!   kind  ∈ replay | iterate | nested (a replay inside a replay)
-//!   body  ∈ map | shmap | mapsh | filt | group            (single loops)
+//!   kind  ∈ replay | iterate | nested (a replay inside a replay) | nestri (an iterate inside a replay)
+//!         | nestir (a replay inside an iterate)
+//!   body  ∈ map | shmap | mapsh | filt | group | kf2 (shuffle, map, group_by+fold, map)
+//!         | join (replay only: split + self-join on x mod 4)   (single loops)
 //!         ∈ n0 | n1 | n2 | n3                              (nested: no shuffle | inner | outer | both)
 //!   fold  ∈ sum | cnt | max | nd                           (local/global fold pair)
 //!   cond  ∈ T | F | lt:<b> | dec | ltm:<b>                 (loop_condition, may mutate)
@@ -21,6 +23,10 @@
 //! ops:    `i <x>` input elements
 //! outputs: `state <list>` (collect_vec of the state stream), `items <sorted list>` (iterate),
 //!          `obs <o|i> <round> <distinct observed states…>`  (round = `k`, inner level: `<ko>.<ki>`)
+//!          nested kinds: `rd <ko>.<ki> <x> <outer state read> <inner state read>` per element of the inner
+//!          body (sorted); placement metadata `at o <ko> <state> <hosts…>`, `at leader <host>`
+//!   hosts = 1: `RuntimeConfig::local(cores)`; 2 or 3: in-process hosts over loopback TCP
+//!   delay fbn: feedback towards head replicas that are not the local leader of their host held 3 ms
 use std::collections::{BTreeMap, BTreeSet, HashMap};
 use std::sync::atomic::{AtomicU64, Ordering};
 use std::sync::{Arc, Mutex};
@@ -40,7 +46,12 @@ type E = (i64, i64, i64);
 static OBS: Mutex<Vec<(u64, u8, i64, i64, i64, u64, u64, u64)>> = Mutex::new(Vec::new());
 /// (run, level, host, replica, outer round) -> number of input elements seen in front of the Replay
 static SEEN: Mutex<Option<HashMap<(u64, u8, u64, u64, i64), i64>>> = Mutex::new(None);
-static LEADERS: Mutex<BTreeSet<u64>> = Mutex::new(BTreeSet::new());
+/// nested kinds: (run, outer round, inner round, x, outer state read, inner state read, host) per element
+static RDS: Mutex<Vec<(u64, i64, i64, i64, i64, i64, u64)>> = Mutex::new(Vec::new());
+/// run -> number of results the inner loop has produced so far (kind `nestir`: round of the fed-back element)
+static RESULTS: Mutex<Option<HashMap<u64, i64>>> = Mutex::new(None);
+/// leader block -> host it runs on (learnt from the feedback messages)
+static LEADERS: Mutex<BTreeMap<u64, u64>> = Mutex::new(BTreeMap::new());
 static RUN: AtomicU64 = AtomicU64::new(1);
 static SLEEPS: AtomicU64 = AtomicU64::new(0);
 
@@ -83,6 +94,21 @@ fn rd(run: u64, st: &IterationStateHandle<i64>, level: u8, e: &E) -> i64 {
     let (h, r, b) = here();
     OBS.lock().unwrap().push((run, level, e.0, e.1, s, h, r, b));
     s
+}
+
+/// the inner body of the nested kinds: reads BOTH states, records them per element
+fn rd2(run: u64, so: &IterationStateHandle<i64>, si: &IterationStateHandle<i64>, e: &E) -> (i64, i64) {
+    let vo = rd(run, so, 0, e);
+    let vi = rd(run, si, 1, e);
+    RDS.lock().unwrap().push((run, e.0, e.1, e.2, vo, vi, here().0));
+    (vo, vi)
+}
+
+fn next_result(run: u64) -> i64 {
+    let mut g = RESULTS.lock().unwrap();
+    let c = g.get_or_insert_with(HashMap::new).entry(run).or_insert(0);
+    *c += 1;
+    *c
 }
 
 fn local_fold(kind: &str, d: &mut i64, e: E) {
@@ -178,6 +204,45 @@ fn body_group<Op: Operator<Out = E> + 'static>(run: u64, s: Stream<Op>, st: Iter
             let v = rd(run, &st, 0, &e);
             (e.0, e.1, (e.2.rem_euclid(50) + v).rem_euclid(M))
         })
+}
+
+/// keyed fold spanning two internal shuffles: shuffle, map (reads), group_by + fold, map (reads)
+fn body_kf2<Op: Operator<Out = E> + 'static>(run: u64, s: Stream<Op>, st: IterationStateHandle<i64>) -> Stream<impl Operator<Out = E>> {
+    let st2 = st.clone();
+    s.shuffle()
+        .map(move |e: E| {
+            let v = rd(run, &st, 0, &e);
+            (e.0, e.1, (e.2 + v).rem_euclid(M))
+        })
+        .group_by(|e: &E| e.2.rem_euclid(3))
+        .fold((0i64, 0i64, 0i64), |acc: &mut E, e: E| {
+            acc.0 = e.0;
+            acc.1 = e.1;
+            acc.2 += e.2;
+        })
+        .drop_key()
+        .map(move |e: E| {
+            let v = rd(run, &st2, 0, &e);
+            (e.0, e.1, (e.2.rem_euclid(50) + v).rem_euclid(M))
+        })
+}
+
+/// self-join (two group-by shuffles) of the mapped stream with the original one on `x mod 4`
+fn body_join<Op: Operator<Out = E> + 'static>(run: u64, s: Stream<Op>, st: IterationStateHandle<i64>) -> Stream<impl Operator<Out = E>> {
+    let st2 = st.clone();
+    let mut v = s.split(2);
+    let b = v.pop().unwrap();
+    let a = v.pop().unwrap();
+    a.map(move |e: E| {
+        let v = rd(run, &st, 0, &e);
+        (e.0, e.1, (e.2 + v).rem_euclid(M))
+    })
+    .join(b, |e: &E| e.2.rem_euclid(4), |e: &E| e.2.rem_euclid(4))
+    .drop_key()
+    .map(move |(l, r): (E, E)| {
+        let v = rd(run, &st2, 0, &l);
+        (l.0, l.1, (l.2 + r.2 + v).rem_euclid(M))
+    })
 }
 
 /// numbers the elements handed out by the outer `Replay` of this replica: round = position / content length
@@ -296,8 +361,7 @@ macro_rules! nested_job {
                     move |s2, si: IterationStateHandle<i64>| {
                         let s2 = s2.rich_map(tag_inner(run));
                         maybe_shuffle!($ish, s2).map(move |e: E| {
-                            let vo = rd(run, &so, 0, &e);
-                            let vi = rd(run, &si, 1, &e);
+                            let (vo, vi) = rd2(run, &so, &si, &e);
                             (e.0, e.1, (e.2 + vo + vi).rem_euclid(M))
                         })
                     },
@@ -316,6 +380,100 @@ macro_rules! nested_job {
     }};
 }
 
+/// an ITERATE inside a replay: the inner loop feeds its output back (`ki` is carried by the data); its
+/// last round's items go to a sink, its final state (one element, mod 1000) is the outer body's output
+macro_rules! nestri_job {
+    ($env:expr, $cfg:expr, $osh:tt, $ish:tt) => {{
+        let cfg: Cfg = $cfg.clone();
+        let run = cfg.run;
+        let max_inner = cfg.max_inner;
+        let (f1, f2, c1) = (cfg.fold.clone(), cfg.fold.clone(), cfg.cond.clone());
+        let src = $env
+            .stream(IteratorSource::new(cfg.input.clone().into_iter()))
+            .batch_mode(batch_mode(&cfg))
+            .shuffle()
+            .map(move |x: i64| {
+                seen_inc(run, 0, 0);
+                (0i64, 0i64, x)
+            });
+        let st = src.replay(
+            cfg.max,
+            cfg.init,
+            move |s, so: IterationStateHandle<i64>| {
+                let s = s.rich_map(tag_outer(run));
+                let s = maybe_shuffle!($osh, s);
+                let (ist, items) = s.iterate(
+                    max_inner,
+                    1i64,
+                    move |s2, si: IterationStateHandle<i64>| {
+                        maybe_shuffle!($ish, s2).map(move |e: E| {
+                            let (vo, vi) = rd2(run, &so, &si, &e);
+                            (e.0, e.1 + 1, (e.2 + vo + vi).rem_euclid(M))
+                        })
+                    },
+                    |d: &mut i64, e: E| *d += e.2,
+                    |s: &mut i64, d: i64| *s += d,
+                    |_s: &mut i64| true,
+                );
+                items.for_each(|_e: E| ());
+                ist.map(|f: i64| (0i64, 0i64, f.rem_euclid(M)))
+            },
+            move |d: &mut i64, e: E| local_fold(&f1, d, e),
+            move |s: &mut i64, d: i64| global_fold(&f2, s, d),
+            move |s: &mut i64| loop_cond(&c1, s),
+        );
+        let r: Outputs = (st.collect_vec(), None);
+        r
+    }};
+}
+
+/// a REPLAY inside an iterate: the inner loop's result is the single element fed back into the next
+/// outer round; its outer-round tag is the number of inner results produced so far (exactly one per
+/// execution of the inner loop)
+macro_rules! nestir_job {
+    ($env:expr, $cfg:expr, $osh:tt, $ish:tt) => {{
+        let cfg: Cfg = $cfg.clone();
+        let run = cfg.run;
+        let max_inner = cfg.max_inner;
+        let (f1, f2, c1) = (cfg.fold.clone(), cfg.fold.clone(), cfg.cond.clone());
+        let src = $env
+            .stream(IteratorSource::new(cfg.input.clone().into_iter()))
+            .batch_mode(batch_mode(&cfg))
+            .shuffle()
+            .map(move |x: i64| (0i64, 0i64, x));
+        let (st, items) = src.iterate(
+            cfg.max,
+            cfg.init,
+            move |s, so: IterationStateHandle<i64>| {
+                let s = maybe_shuffle!($osh, s).map(move |e: E| {
+                    seen_inc(run, 1, e.0);
+                    e
+                });
+                s.replay(
+                    max_inner,
+                    1i64,
+                    move |s2, si: IterationStateHandle<i64>| {
+                        let s2 = s2.rich_map(tag_inner(run));
+                        maybe_shuffle!($ish, s2).map(move |e: E| {
+                            let (vo, vi) = rd2(run, &so, &si, &e);
+                            (e.0, e.1, (e.2 + vo + vi).rem_euclid(M))
+                        })
+                    },
+                    |d: &mut i64, e: E| *d += e.2,
+                    |s: &mut i64, d: i64| *s += d,
+                    |_s: &mut i64| true,
+                )
+                .map(move |f: i64| (next_result(run), 0i64, f.rem_euclid(M)))
+            },
+            move |d: &mut i64, e: E| local_fold(&f1, d, e),
+            move |s: &mut i64, d: i64| global_fold(&f2, s, d),
+            move |s: &mut i64| loop_cond(&c1, s),
+        );
+        let r: Outputs = (st.collect_vec(), Some(items.collect_vec()));
+        r
+    }};
+}
+
 fn build(env: &StreamContext, cfg: &Cfg) -> Outputs {
     match (cfg.kind.as_str(), cfg.body.as_str()) {
         ("replay", "map") => replay_job!(env, cfg, body_map),
@@ -328,6 +486,17 @@ fn build(env: &StreamContext, cfg: &Cfg) -> Outputs {
         ("iterate", "mapsh") => iterate_job!(env, cfg, body_mapsh),
         ("iterate", "filt") => iterate_job!(env, cfg, body_filt),
         ("iterate", "group") => iterate_job!(env, cfg, body_group),
+        ("replay", "kf2") => replay_job!(env, cfg, body_kf2),
+        ("replay", "join") => replay_job!(env, cfg, body_join),
+        ("iterate", "kf2") => iterate_job!(env, cfg, body_kf2),
+        ("nestri", "n0") => nestri_job!(env, cfg, false, false),
+        ("nestri", "n1") => nestri_job!(env, cfg, false, true),
+        ("nestri", "n2") => nestri_job!(env, cfg, true, false),
+        ("nestri", "n3") => nestri_job!(env, cfg, true, true),
+        ("nestir", "n0") => nestir_job!(env, cfg, false, false),
+        ("nestir", "n1") => nestir_job!(env, cfg, false, true),
+        ("nestir", "n2") => nestir_job!(env, cfg, true, false),
+        ("nestir", "n3") => nestir_job!(env, cfg, true, true),
         ("nested", "n0") => nested_job!(env, cfg, false, false),
         ("nested", "n1") => nested_job!(env, cfg, false, true),
         ("nested", "n2") => nested_job!(env, cfg, true, false),
@@ -346,18 +515,20 @@ fn observer(cfg: &Cfg) -> Arc<dyn Fn(&LinkEvent) + Send + Sync> {
         if e.send {
             if let Some(p) = &e.payload {
                 if p.contains("\"Continue\"") || p.contains("\"Finished\"") {
-                    LEADERS.lock().unwrap().insert(e.sender.block_id);
+                    LEADERS.lock().unwrap().insert(e.sender.block_id, e.sender.host_id);
                 }
             }
         }
         let (is_leader, is_outer) = {
             let l = LEADERS.lock().unwrap();
-            (l.contains(&e.sender.block_id), l.iter().next() == Some(&e.sender.block_id))
+            (l.contains_key(&e.sender.block_id), l.keys().next() == Some(&e.sender.block_id))
         };
         let last_place = if hosts > 1 { e.dest.host_id == hosts - 1 } else { e.dest.replica_id == cores - 1 };
         let ms = match delay.trim_end_matches('s') {
             "fb" if !e.send && is_leader && last_place => 2,
             "fbo" if !e.send && is_leader && is_outer && last_place => 15,
+            // towards the head replicas that are NOT the local leader of their host
+            "fbn" if !e.send && is_leader && e.dest.replica_id != 0 => 3,
             "data" if e.send && !is_leader && e.dest.replica_id == 0 && e.kinds.iter().any(|k| k.0 == "I") => 1,
             _ => 0,
         };
@@ -463,19 +634,25 @@ fn exec(c: &Case) -> Vec<String> {
         xs.sort();
         out.push(format!("items {}", Val::ints(xs)));
     }
+    let nested = cfg.kind.starts_with("nest");
     let mut obs: BTreeMap<(u8, i64, i64), BTreeSet<i64>> = BTreeMap::new();
+    // nested kinds: hosts on which a given OUTER state was observed in a given outer round
+    let mut at: BTreeMap<(i64, i64), BTreeSet<u64>> = BTreeMap::new();
     let debug = std::env::var("LOOPS_DEBUG").is_ok();
     {
         let mut g = OBS.lock().unwrap();
         for &(run, level, ko, ki, s, h, r, b) in g.iter() {
             if run == cfg.run {
                 obs.entry((level, ko, if level == 0 { 0 } else { ki })).or_default().insert(s);
+                if level == 0 {
+                    at.entry((ko, s)).or_default().insert(h);
+                }
                 if debug {
                     eprintln!("# obs run={run} level={level} round={ko}.{ki} state={s} at block {b} host {h} replica {r}");
                 }
             }
         }
-        g.clear();
+        g.retain(|o| o.0 > cfg.run);
     }
     if let Some(m) = SEEN.lock().unwrap().as_mut() {
         m.clear();
@@ -488,22 +665,57 @@ fn exec(c: &Case) -> Vec<String> {
             out.push(format!("obs i {ko}.{ki} {}", states.join(" ")));
         }
     }
+    if nested {
+        // one line per element processed by the inner body: what it read
+        let mut rds: Vec<(i64, i64, i64, i64, i64)> = {
+            let mut g = RDS.lock().unwrap();
+            let v = g.iter().filter(|r| r.0 == cfg.run).map(|r| (r.1, r.2, r.3, r.4, r.5)).collect();
+            g.retain(|r| r.0 > cfg.run);
+            v
+        };
+        rds.sort();
+        for (ko, ki, x, so, si) in rds {
+            out.push(format!("rd {ko}.{ki} {x} {so} {si}"));
+        }
+        // placement metadata (echoed by the driver, not predicted): where each outer state was seen,
+        // and the host of the outermost leader
+        for ((ko, s), hosts) in at {
+            let hosts: Vec<String> = hosts.iter().map(|h| h.to_string()).collect();
+            out.push(format!("at o {ko} {s} {}", hosts.join(" ")));
+        }
+        if let Some((_, h)) = LEADERS.lock().unwrap().iter().next() {
+            out.push(format!("at leader {h}"));
+        }
+    }
     out
 }
 
 fn gen(rng: &mut Rng, i: usize) -> Case {
-    let kind = match rng.below(20) {
+    let kind = match rng.below(24) {
         0..=8 => "replay",
         9..=15 => "iterate",
-        _ => "nested",
+        16..=19 => "nested",
+        20..=21 => "nestri",
+        _ => "nestir",
     };
-    let hosts = if rng.chance(if kind == "nested" { 2 } else { 1 }, 4) { 2 } else { 1 };
-    let cores = if hosts == 2 { rng.range(1, 2) } else { rng.range(1, 4) };
-    let max = rng.range(1, if kind == "nested" { 4 } else { 6 });
-    let body = if kind == "nested" {
+    let nest = kind.starts_with("nest");
+    let hosts = match rng.below(if nest { 8 } else { 12 }) {
+        0 | 1 | 2 => 2,
+        3 => 3,
+        _ => 1,
+    };
+    let cores = match hosts {
+        3 => 1,
+        2 => rng.range(1, 2),
+        _ => rng.range(1, 4),
+    };
+    let max = rng.range(1, if nest { 4 } else { 6 });
+    let body = if nest {
         *rng.pick(&["n0", "n1", "n2", "n3", "n1", "n3"])
+    } else if kind == "replay" {
+        *rng.pick(&["map", "shmap", "mapsh", "filt", "group", "kf2", "join"])
     } else {
-        *rng.pick(&["map", "shmap", "mapsh", "filt", "group"])
+        *rng.pick(&["map", "shmap", "mapsh", "filt", "group", "kf2"])
     };
     let fold = *rng.pick(&["sum", "sum", "cnt", "max", "nd"]);
     let cond = match rng.below(8) {
@@ -514,7 +726,7 @@ fn gen(rng: &mut Rng, i: usize) -> Case {
         _ => format!("ltm:{}", rng.range(0, 3000)),
     };
     let init = rng.range(-2, 5);
-    let delay = *rng.pick(&["none", "none", "fb", "fbo", "data", "nones", "fbos"]);
+    let delay = *rng.pick(&["none", "none", "fb", "fbo", "fbn", "data", "nones", "fbos"]);
     let max_inner = rng.range(1, 3);
     let mut c = Case::new(&[
         "loops",
@@ -532,7 +744,7 @@ fn gen(rng: &mut Rng, i: usize) -> Case {
     let n = match rng.below(8) {
         0 => 0,
         1 => 1,
-        _ => rng.range(2, if kind == "nested" { 12 } else { 30 }),
+        _ => rng.range(2, if nest || body == "join" { 12 } else { 30 }),
     };
     for _ in 0..n {
         c.ops(vec!["i".into(), rng.range(0, 99).to_string()]);
